@@ -1,9 +1,12 @@
 #!/usr/bin/env python3
-"""usage: import_seed.py <prop> <A|B>  — copies a confirmed seeded change from /tmp/seed into /verif/seeded."""
+"""usage: import_seed.py <prop> <A|B> [src root] [dst variant]  — copies a confirmed seeded change from /tmp/seed into /verif/seeded."""
 import json, os, shutil, sys
 prop, v = sys.argv[1], sys.argv[2]
-src = f"/tmp/seed/{prop}/{v}"
-dst = f"/verif/seeded/{prop}-{v}"
+root = sys.argv[3] if len(sys.argv) > 3 else "/tmp/seed"
+dv = sys.argv[4] if len(sys.argv) > 4 else v
+src = f"{root}/{prop}/{v}"
+dst = f"/verif/seeded/{prop}-{dv}"
+v = dv
 conf = json.load(open(f"{src}/confirm.json"))
 if not conf.get("confirmed"):
     print("NOT CONFIRMED:", conf); sys.exit(1)
@@ -19,7 +22,8 @@ meta = {
     "needs_to_manifest": m.get("needs_to_manifest"),
     "demo_path_in_repo": m.get("demo_path_in_repo"),
     "demo_cmd": m.get("demo_cmd"),
-    "author": "independent sub-agent given only the property text and a scratch worktree",
+    "author": "independent sub-agent given only the property text and a scratch worktree" + (" (round 2: also told which sites round 1 had used)" if root != "/tmp/seed" else ""),
+    "notes": m.get("notes"),
     "what_i_ran": {
         "base_commit": conf.get("base"),
         "procedure": "tools/confirm_seed.sh in a scratch worktree of /repo HEAD: demo without the change (expect exit 0), git apply patch, demo with the change (expect non-zero), demo file removed, `go build ./... && go test -mod=mod -vet=off -count=1 ./...` in every touched module",
